@@ -142,6 +142,7 @@ structure World where
   rreg : List (Nat × Nat) := []
   warnings : Nat := 0
   collisions : Nat := 0   -- value-equal keys overwritten in a copy lookup (diagnostic only, R3)
+  identKeys : Bool := false   -- diagnostic twin: key the copy lookup by identity (what the code would do without value equality)
   deriving Inhabited
 
 def World.gdur (w : World) : GKey → Int
